@@ -91,6 +91,15 @@ Lemma sout_forrange env x a1 rest body hasie ie : sout' env (SForRange x a1 rest
       end
     else None.
 Proof. reflexivity. Qed.
+Lemma sout_css env e sfx : sout' env (SCss e sfx)
+  = match e with
+    | None => Some (sfx, env)
+    | Some x => match ceval ij env x with
+                | Some v => match scalar_string v with Some str => Some ((str ++ [45]) ++ sfx, env) | None => None end
+                | None => None
+                end
+    end.
+Proof. reflexivity. Qed.
 Lemma bout_nil env : bout' env BNil = Some []. Proof. reflexivity. Qed.
 Lemma bout_cons env s r : bout' env (BCons s r)
   = match sout' env s with
@@ -139,6 +148,8 @@ Lemma sgen_forrange sc n x a1 rest body hasie ie : sgen' sc n (SForRange x a1 re
                          end in
     (JSForRange (jsc_name x (n + 1)) (jsc_name (x ++ t_init) (n + 1)) (jsc_name (x ++ t_step) (n + 1)) (jsc_name (x ++ t_limit) (n + 1))
                 (jsc_name (x ++ t_index) (n + 1)) ei es el jb hasie ji, (sc, n2)).
+Proof. reflexivity. Qed.
+Lemma sgen_css sc n e sfx : sgen' sc n (SCss e sfx) = (JSCss buf (match e with Some x => Some (cgen sc x) | None => None end) sfx, (sc, n)).
 Proof. reflexivity. Qed.
 Lemma bgen_nil sc n : bgen' sc n BNil = (JBNil, n). Proof. reflexivity. Qed.
 Lemma bgen_cons sc n s r : bgen' sc n (BCons s r)
@@ -194,6 +205,13 @@ Lemma js_exec_forrange env vd vinit vstep vlen vidx ei es el body hasie ie : js_
          end
      | _, _, _ => OutOfModel
      end).
+Proof. reflexivity. Qed.
+Lemma js_exec_css env buf e sfx : js_exec env (JSCss buf e sfx)
+  = (env1 <- match e with
+             | Some x => v <- js_eval env x ;; match js_tostring v with Some s => js_append_text env buf (s ++ [45]) | None => OutOfModel end
+             | None => Ok env
+             end ;;
+     js_append_text env1 buf sfx).
 Proof. reflexivity. Qed.
 Lemma jb_exec_cons env s r : jb_exec env (JBCons s r) = (env' <- js_exec env s ;; jb_exec env' r). Proof. reflexivity. Qed.
 Lemma jl_exec_elif env c th rest : jl_exec env (JLElif c th rest) = (v <- js_eval env c ;; if js_truthy v then jb_exec env th else jl_exec env rest).
@@ -450,6 +468,7 @@ Proof.
     destruct hasie.
     + destruct (bgen mode buf ([] :: sc) n1 ie) as [ji n2] eqn:E2. specialize (IHi _ _ _ _ _ E2). inversion H; subst. lia.
     + inversion H; subst. lia.
+  - intros e sfx buf sc n j sc' n' H. inversion H. lia.
   - intros buf sc n jb n' H. inversion H. lia.
   - intros s IHs r IHr buf sc n jb n' H. rewrite bgen_cons in H.
     destruct (sgen mode buf sc n s) as [j [sc1 n1]] eqn:E1. destruct (bgen mode buf sc1 n1 r) as [jr n2] eqn:E2. inversion H; subst.
@@ -483,6 +502,7 @@ Proof.
   - rewrite sgen_forrange in H. destruct (bgen mode buf ([] :: loop_frame x (n + 1) :: sc) (n + 1) body) as [jb n1].
     destruct (match range_args (JENum 0) (JENum 1) (map (cgen sc) (a1 :: rest)) with Some t => t | None => (JENull, JENull, JENull) end) as [[ei el] es].
     destruct hasie; [destruct (bgen mode buf ([] :: sc) n1 ie) as [ji n2]|]; inversion H; auto.
+  - inversion H; auto.
 Qed.
 
 (* the names a statement binds are identifiers *)
@@ -491,7 +511,7 @@ Definition binder_ok (s : cstmt) : Prop :=
 Lemma sgen_after_ident mode buf sc n s j sc' n' : binder_ok s -> sgen mode buf sc n s = (j, (sc', n')) ->
   sc' = sc \/ (exists name, is_ident name = true /\ sc' = jsc_bind_pure sc name (jsc_name name (n + 1)) /\ n + 1 <= n').
 Proof.
-  intros Hb H. destruct s as [t|e ds|nm e|nm body|c th rest|v cs|x e body hasie ie|x a1 rest body hasie ie]; cbn [binder_ok] in Hb.
+  intros Hb H. destruct s as [t|e ds|nm e|nm body|c th rest|v cs|x e body hasie ie|x a1 rest body hasie ie|e sfx]; cbn [binder_ok] in Hb.
   - inversion H; auto.
   - inversion H; auto.
   - inversion H; subst. right. exists nm. split; [exact Hb|]. split; [reflexivity|lia].
@@ -504,6 +524,7 @@ Proof.
   - rewrite sgen_forrange in H. destruct (bgen mode buf ([] :: loop_frame x (n + 1) :: sc) (n + 1) body) as [jb n1].
     destruct (match range_args (JENum 0) (JENum 1) (map (cgen sc) (a1 :: rest)) with Some t => t | None => (JENull, JENull, JENull) end) as [[ei el] es].
     destruct hasie; [destruct (bgen mode buf ([] :: sc) n1 ie) as [ji n2]|]; inversion H; auto.
+  - inversion H; auto.
 Qed.
 Lemma swf_binder lv s : swf lv s = true -> binder_ok s.
 Proof. destruct s; cbn [swf binder_ok]; auto; intro H; apply andb_prop in H; apply H. Qed.
@@ -1141,6 +1162,19 @@ Proof.
       * unfold jvget, je4, je3. cbn [jvset je_vars]. rewrite assoc_s_aset_other by exact N4. rewrite assoc_s_aset. f_equal. f_equal. exact Hcl.
       * unfold jvget, je4. cbn [jvset je_vars]. apply assoc_s_aset.
       * exists je'. split; [exact X|]. split; [eapply jinv_frame; eauto|exact F'].
+  - (* css *) intros e sfx buf sc n env je old text env' j sc' n' G E I Eg. rewrite sout_css in E. rewrite sgen_css in Eg. inversion Eg; subst. clear Eg.
+    rewrite js_exec_css. pose proof I as [ER Hb]. destruct e as [x|].
+    + destruct (ceval ij env x) as [v|] eqn:Ev; [|discriminate]. destruct (scalar_string v) as [str|] eqn:Es; [|discriminate]. inversion E; subst. clear E.
+      destruct (scalar_string_ok v str Es) as (_ & _ & Ht). destruct (cgen_correct sc' ij env' je ER x v Ev) as [Hj _].
+      rewrite Hj. cbn [bind]. rewrite Ht. unfold js_append_text at 1. rewrite Hb. cbn [bind].
+      pose proof (jinv_append buf sc' n' env' je old (str ++ [45]) G I) as I1.
+      set (je1 := {| je_vars := aset (je_vars je) buf (JStr (old ++ str ++ [45])); je_data := je_data je |}) in *.
+      unfold js_append_text. rewrite (proj2 I1). eexists. split; [reflexivity|].
+      split; [replace (old ++ (str ++ [45]) ++ sfx) with ((old ++ str ++ [45]) ++ sfx) by (rewrite <- app_assoc; reflexivity);
+              exact (jinv_append buf sc' n' env' je1 _ sfx G I1)|].
+      eapply frame_comp; apply append_frame.
+    + inversion E; subst. clear E. cbn [bind]. unfold js_append_text. rewrite Hb. eexists. split; [reflexivity|].
+      split; [eapply jinv_append; eauto|apply append_frame].
   - (* BNil *) intros buf sc n env je old text jb n' G E I Eg. rewrite bout_nil in E. rewrite bgen_nil in Eg. inversion E; subst. inversion Eg; subst.
     exists je. rewrite app_nil_r. split; [reflexivity|]. split; [apply I|apply frame_refl].
   - (* BCons *) intros s IHs r IHr buf sc n env je old text jb n' G E I Eg. rewrite bout_cons in E. rewrite bgen_cons in Eg.
